@@ -3,6 +3,7 @@ C14 — connection slots are bounded by MaxConnections and always given back.
 -/
 import DtailModel.Model.Conn
 import DtailModel.Lemmas.GenConn
+set_option autoImplicit false
 namespace Dtail.C14
 open Dtail
 
